@@ -51,6 +51,8 @@ def clock_read(sx, st, name="now"):
     if prev is not None:
         st.assume(v.term >= prev.term)
     st.ghost["clock"] = v
+    if "clock1" not in st.ghost:
+        st.ghost["clock1"] = v  # first clock read of this call
     return v
 
 
@@ -72,3 +74,166 @@ def lemma(name, vars, hyp, concl, induct=None, base=None, props=()):
     l = Lemma(name, vars, hyp, concl, induct, base, props)
     REG.lemmas[name] = l
     return l
+
+
+# ----------------------------------------------------------------------------- aionostr Event (record view)
+TAGS = V.List(V.List(V.Str))
+EVENT = V.Rec("Event", {
+    "id": V.Str, "pubkey": V.Str, "created_at": V.Int, "kind": V.Int, "content": V.Str, "tags": TAGS, "sig": V.Str,
+})
+assume_doc("EV", "events are viewed through their canonical field types (id/pubkey/sig str, created_at/kind int, content str, tags list of lists of str); "
+                 "aionostr.Event.is_ephemeral/is_replaceable/is_paramaterized_replaceable/id_bytes are modelled from the installed source (kind ranges 20000-29999, 10000-19999, 30000-39999; bytes.fromhex(id))")
+
+HEXRE = z3.Star(z3.Union(z3.Range("0", "9"), z3.Range("a", "f")))
+FROMHEX = REG.ufun("bytes_fromhex", [z3.StringSort()], z3.StringSort())
+FROMHEX_OK = REG.ufun("fromhex_ok", [z3.StringSort()], z3.BoolSort())
+
+
+def fromhex(sx, s, st):
+    """bytes.fromhex(s) (ASSUMED): ValueError unless s is hex digits (any case, ASCII whitespace allowed between pairs);
+    on an even number of hex digits: no error, len(result) == len(s)/2"""
+    r = FROMHEX(s)
+    st.assume(z3.Implies(z3.And(z3.InRe(s, HEXRE), z3.Length(s) % 2 == 0), z3.And(FROMHEX_OK(s), 2 * z3.Length(r) == z3.Length(s))))
+    st.assume(z3.Implies(FROMHEX_OK(s), 2 * z3.Length(r) <= z3.Length(s)))
+    outs = []
+    if not sx.spec_mode:
+        s2 = st.fork().assume(z3.Not(FROMHEX_OK(s)))
+        if sx.feasible(s2):
+            outs.append(R(s2, None, Exc("ValueError")))
+        st.assume(FROMHEX_OK(s))
+    outs.append(R(st, Val(V.Bytes, r)))
+    return outs
+
+
+class BytesClass:
+    def __pyvc_getattr__(self, sx, attr, st, node):
+        if attr == "fromhex":
+            return [R(st, Func(lambda sx2, a, k, s, n: fromhex(sx2, a[0].term, s), "bytes.fromhex"))]
+        raise Unsupported("bytes.%s" % attr, node)
+
+    def __pyvc_call__(self, sx, args, kwargs, st, node):
+        from pyvc import builtins2 as B2
+
+        return B2._bytes_ctor(sx, args, kwargs, st, node)
+
+
+REG.globals["bytes"] = Conc(BytesClass())
+
+BE_INT = REG.ufun("be_int", [z3.StringSort()], z3.IntSort())
+
+
+class IntClass:
+    def __pyvc_getattr__(self, sx, attr, st, node):
+        if attr == "from_bytes":
+            def fb(sx2, a, k, s, n):
+                v = BE_INT(a[0].term)
+                s.assume(v >= 0)
+                s.assume((v == 0) == z3.InRe(a[0].term, z3.Star(z3.Re(z3.StringVal("\x00")))))
+                return [R(s, Val(V.Int, v))]
+            return [R(st, Func(fb, "int.from_bytes"))]
+        raise Unsupported("int.%s" % attr, node)
+
+    def __pyvc_call__(self, sx, args, kwargs, st, node):
+        from pyvc import builtins2 as B2
+
+        return B2._int(sx, args, kwargs, st, node)
+
+
+REG.globals["int"] = Conc(IntClass())
+
+
+def _ev_prop(name):
+    def deco(f):
+        REG.rec_props[("Event", name)] = f
+        return f
+    return deco
+
+
+@_ev_prop("id_bytes")
+def _id_bytes(sx, ev, st, node):
+    return fromhex(sx, EVENT.get(ev.term, "id"), st)
+
+
+@_ev_prop("is_ephemeral")
+def _is_eph(sx, ev, st, node):
+    k = EVENT.get(ev.term, "kind")
+    return [R(st, Val(V.Bool, z3.And(k >= 20000, k < 30000)))]
+
+
+@_ev_prop("is_replaceable")
+def _is_repl(sx, ev, st, node):
+    k = EVENT.get(ev.term, "kind")
+    return [R(st, Val(V.Bool, z3.And(k >= 10000, k < 20000)))]
+
+
+@_ev_prop("is_paramaterized_replaceable")
+def _is_prepl(sx, ev, st, node):
+    k = EVENT.get(ev.term, "kind")
+    return [R(st, Val(V.Bool, z3.And(k >= 30000, k < 40000)))]
+
+
+# crypto is uninterpreted: verify() is exactly "signature (and every delegation signature) checks out over the
+# hash recomputed from the event's own fields"; what it does NOT check is part of its contract (see C03)
+VERIFY = REG.ufun("event_verify", [EVENT.sort()], z3.BoolSort())
+
+
+@_ev_prop("verify")
+def _verify(sx, ev, st, node):
+    def call(sx2, a, k, s, n):
+        return [R(s, Val(V.Bool, VERIFY(ev.term)))]
+    return [R(st, Func(call, "Event.verify"))]
+
+
+class EventKindEnum:
+    VALUES = {"SET_METADATA": 0, "TEXT_NOTE": 1, "RECOMMEND_RELAY": 2, "CONTACTS": 3, "ENCRYPTED_DIRECT_MESSAGE": 4, "DELETE": 5}
+
+    def __pyvc_getattr__(self, sx, attr, st, node):
+        return [R(st, V.mk_int(self.VALUES[attr]))]
+
+
+REG.globals["EventKind"] = Conc(EventKindEnum())
+
+
+# ----------------------------------------------------------------------------- re module (stated subset, see pyvc/pyre.py)
+class RegexObj:
+    def __init__(self, pattern):
+        self.pattern = pattern
+
+    def __pyvc_getattr__(self, sx, attr, st, node):
+        if attr in ("match", "fullmatch", "search"):
+            def m(sx2, a, k, s, n):
+                from pyvc import pyre
+                v = sx2.deref(a[0], s)
+                if not isinstance(v.ty, V._Str):
+                    raise Unsupported("regex match on %r" % (v.ty,), n)
+                # truthiness of the match object is all the engine models
+                return [R(s, Val(V.Bool, pyre.match_term(self.pattern, v.term, attr)))]
+            return [R(st, Func(m, "regex." + attr))]
+        raise Unsupported("regex.%s" % attr, node)
+
+
+class ReModule:
+    def __pyvc_getattr__(self, sx, attr, st, node):
+        if attr == "compile":
+            def comp(sx2, a, k, s, n):
+                p = z3.simplify(a[0].term)
+                if not z3.is_string_value(p) or len(a) > 1 or k:
+                    raise Unsupported("re.compile with non-literal pattern or flags", n)
+                return [R(s, Conc(RegexObj(_z3str(p))))]
+            return [R(st, Func(comp, "re.compile"))]
+        if attr in ("match", "fullmatch", "search"):
+            def direct(sx2, a, k, s, n):
+                p = z3.simplify(a[0].term)
+                if not z3.is_string_value(p) or len(a) != 2:
+                    raise Unsupported("re.%s with non-literal pattern" % attr, n)
+                return RegexObj(_z3str(p)).__pyvc_getattr__(sx2, attr, s, n)[0].val.fn(sx2, a[1:], k, s, n)
+            return [R(st, Func(direct, "re." + attr))]
+        raise Unsupported("re.%s" % attr, node)
+
+
+def _z3str(v):
+    import re as _re
+    return _re.sub(r"\\u\{([0-9a-fA-F]+)\}", lambda m: chr(int(m.group(1), 16)), v.as_string())
+
+
+REG.globals["re"] = Conc(ReModule())
